@@ -366,7 +366,11 @@ func (p *Forkable) blocksThroughCursor(startBlock uint64, cursor *bstream.Cursor
 				stepType = bstream.StepNewIrreversible
 			}
 
-			out = append(out, wrapBlockForkableObject(seg[i].Object.(*ForkableBlock), stepType, head, libRef, nil))
+			lib := libRef
+			if lib.Num() > seg[i].BlockNum {
+				lib = seg[i].AsRef() // never send cursor with LIB > Block
+			}
+			out = append(out, wrapBlockForkableObject(seg[i].Object.(*ForkableBlock), stepType, head, lib, nil))
 			continue
 		}
 		return out, nil
@@ -399,7 +403,11 @@ func (p *Forkable) blocksThroughCursor(startBlock uint64, cursor *bstream.Cursor
 
 		if block.Block.Number < cursor.Block.Num() ||
 			block.Block.Number == cursor.Block.Num() && !cursor.Step.Matches(bstream.StepUndo) {
-			out = append(out, wrapBlockForkableObject(block, stepType, head, cursor.LIB, nil))
+			lib := cursor.LIB
+			if lib.Num() > seg[i].BlockNum {
+				lib = seg[i].AsRef() // never send cursor with LIB > Block
+			}
+			out = append(out, wrapBlockForkableObject(block, stepType, head, lib, nil))
 		}
 
 		if block.Block.Number == cursor.Block.Num() {
